@@ -178,7 +178,7 @@ func (o *functionOperator) Next(ctx context.Context) ([]model.StepVector, error)
 
 		for batchIndex := range vectors {
 			val := math.NaN()
-			if len(scalarVectors) > 0 && len(scalarVectors[batchIndex].Samples) > 0 {
+			if len(scalarVectors) > batchIndex && len(scalarVectors[batchIndex].Samples) > 0 {
 				val = scalarVectors[batchIndex].Samples[0]
 				o.nextOps[i].GetPool().PutStepVector(scalarVectors[batchIndex])
 			}
